@@ -617,17 +617,33 @@ namespace bloch::runtime {
             for (auto& cn : classNames) initStaticFields(m_classTable[cn].get());
             ensureGcThread();
         }
-        auto it = m_functions.find("main");
-        if (it != m_functions.end()) {
-            call(it->second, {});
-        }
-        rethrowDestructorError();
-        if (m_gcThreadStarted) {
-            m_stopGc = true;
-            m_gcRequested = true;
+        // the timer thread is stopped when the run ends, also when it ends by an error
+        auto stopGcThread = [this]() {
+            if (!m_gcThreadStarted)
+                return;
+            {
+                // under the mutex: a notification sent between the thread's check of the flag and
+                // its wait would otherwise be lost (and the join would sit out a full period)
+                std::lock_guard<std::mutex> lock(m_gcMutex);
+                m_stopGc = true;
+            }
             m_gcCv.notify_all();
             if (m_gcThread.joinable())
                 m_gcThread.join();
+        };
+        auto it = m_functions.find("main");
+        try {
+            if (it != m_functions.end()) {
+                call(it->second, {});
+            }
+            rethrowDestructorError();
+        } catch (...) {
+            stopGcThread();
+            throw;
+        }
+        if (m_gcThreadStarted) {
+            m_gcRequested = true;
+            stopGcThread();
         }
         runCycleCollector();
         rethrowDestructorError();
